@@ -102,6 +102,40 @@ theorem findLoop_isSome (b : Nat) (l : List RS) (n o : Option RS)
         | some r => simp only []; split <;> exact ih _ _ ht
       · exact ih _ _ ht
 
+/-- the "stable" ReplicaSet found is one of the list whose template differs from the Deployment's -/
+theorem findLoop_stable (b : Nat) (P : RS → Prop) (l : List RS) (n o : Option RS) (res : Option RS × Option RS)
+    (h : findLoop b l n o = some res)
+    (hl : ∀ rs ∈ l, rs.tmplBody ≠ b → P rs) (ho : ∀ s, o = some s → P s) :
+    ∀ s, res.2 = some s → P s := by
+  induction l generalizing n o with
+  | nil => simp [findLoop] at h; subst h; exact ho
+  | cons rs rest ih =>
+    have ht : ∀ x ∈ rest, x.tmplBody ≠ b → P x := fun x hx => hl x (List.mem_cons_of_mem _ hx)
+    unfold findLoop at h
+    split at h
+    · exact ih _ _ h ht ho
+    · rename_i hne
+      have hP : P rs := hl rs (List.mem_cons_self ..) (by simpa using hne)
+      split at h
+      · cases hrep : rs.replicas with
+        | none => simp [hrep] at h
+        | some r =>
+          simp only [hrep] at h
+          split at h
+          · exact ih _ _ h ht (fun s hs => by cases hs; exact hP)
+          · exact ih _ _ h ht ho
+      · exact ih _ _ h ht ho
+
+theorem findCanary_stable (rq : Req) (a : Option RS) (s : RS)
+    (h : findCanaryAndStableReplicaSet (activeRS rq) rq.new = some (a, some s)) :
+    s ∈ activeRS rq ∧ s.tmplBody ≠ rq.new.tmpl.body := by
+  unfold findCanaryAndStableReplicaSet at h
+  refine findLoop_stable rq.new.tmpl.body (fun x => x ∈ activeRS rq ∧ x.tmplBody ≠ rq.new.tmpl.body)
+    _ none none _ h ?_ ?_ s rfl
+  · intro rs hrs hne
+    exact ⟨(mem_sortRS rs _).mp hrs, hne⟩
+  · intro s hs; cases hs
+
 theorem findCanary_isSome (rq : Req) (h : rq.rss.all (fun rs => rs.replicas.isSome) = true) :
     (findCanaryAndStableReplicaSet (activeRS rq) rq.new).isSome = true := by
   unfold findCanaryAndStableReplicaSet
